@@ -51,7 +51,7 @@ def generate(rng, run, tier):
                 cfg["physical"] = physical = "QUADS"
                 cfg["max_prefixes"] = cfg["max_prefixes"] and min(4096, cfg["max_prefixes"] + 1)   # graph IRI joins the row
                 cfg["max_names"] = min(4096, cfg["max_names"] + 1)
-            cfg["logical"] = rng.choice([3, 13] if physical == "TRIPLES" else [4, 14])
+            cfg["logical"] = rng.choice([3, 13, 1] if physical == "TRIPLES" else [4, 14, 2])
             groups = c01.split_groups(rng, len(stmts))
             if rng.random() < 0.4:
                 groups.insert(rng.choice([0, 0, len(groups)]), 0)       # an empty graph/dataset, often the first
